@@ -16,7 +16,8 @@ from harness import c05_lib as L
 STYLES = ["import", "import_as", "from_pkg", "from_pkg_as", "from_mod", "from_mod_as", "rel_pkg", "rel_mod", "star"]
 
 
-IMPORT_USES = ["try", "default", "decorator", "if", "from_name", "import", "from", None]
+IMPORT_USES = ["try", "class_kw", "default", "decorator", "if", "class_base", "from_name", "import", "from", None]
+LIB_TEXT = "def g():\n    return %r\ndef deco(fn):\n    return fn\nclass Meta(type):\n    pass\nclass Base(object):\n    pass\n"
 
 
 def gen_project(rng, idx=None):
@@ -34,9 +35,9 @@ def gen_project(rng, idx=None):
         for n in rng.sample(["b", "s", "t", "bb", "st"], rng.choice([1, 2, 3, 3])):
             rel = "/".join(p + (n + ".py",))
             mods.append(rel)
-            files[rel] = "def g():\n    return %r\ndef deco(fn):\n    return fn\n" % (rel + ":g")
+            files[rel] = LIB_TEXT % (rel + ":g")
     if rng.random() < 0.3:
-        files["m.py"] = "def g():\n    return 'm.py:g'\ndef deco(fn):\n    return fn\n"
+        files["m.py"] = LIB_TEXT % "m.py:g"
         mods.append("m.py")
     # a top-level module with the same name as a package-level one (s.py and a/s.py): absolute and relative
     # from-imports of homonyms must not be merged
@@ -47,14 +48,14 @@ def gen_project(rng, idx=None):
             inner = rng.choice(cands)
             top = inner.split("/")[1]
             if top not in files:
-                files[top] = "def g():\n    return %r\ndef deco(fn):\n    return fn\n" % (top + ":g")
+                files[top] = LIB_TEXT % (top + ":g")
                 mods.append(top)
                 homonym = (top, inner)
     source = rng.choice([m for m in mods if "/" in m and (homonym is None or m != homonym[1])])
     others = [m for m in mods if m != source]
     # how the moved function reaches a name the source module imported: in its body, only on its def line
     # (default value), only in a decorator, or through an import that is not a top-level statement
-    uses_import = rng.choice([None, "import", "from", "from_name", "default", "decorator", "try", "if"]) if others else None
+    uses_import = rng.choice(IMPORT_USES) if others else None
     if idx is not None and others:
         uses_import = IMPORT_USES[idx % len(IMPORT_USES)]      # every run sees every way of using an import
     lib = rng.choice(others) if others else None
@@ -85,6 +86,13 @@ def gen_project(rng, idx=None):
         elif uses_import == "if":
             lines += ["if True:", "    import %s as lm" % ld]
             call = " + lm.g()"
+        elif uses_import == "class_kw":
+            # the moved global is a class whose header names an import only as a class keyword
+            lines.append("from %s import Meta as lmeta" % ld)
+            header = "class f(metaclass=lmeta):"
+        elif uses_import == "class_base":
+            lines.append("from %s import Base as lbase" % ld)
+            header = "class f(lbase):"
     lines.append("def h():")
     lines.append("    return %r" % (source + ":h"))
     if rng.random() < 0.5:
@@ -93,12 +101,16 @@ def gen_project(rng, idx=None):
         lines.append(deco_line)
     f_uses_h = rng.random() < 0.6
     lines.append(header)
-    lines.append("    return %r%s%s" % (source + ":f", " + h()" if f_uses_h else "", call))
+    if header.startswith("class"):
+        lines.append("    def val(self):")
+        lines.append("        return %r%s%s" % (source + ":f", " + h()" if f_uses_h else "", call))
+    else:
+        lines.append("    return %r%s%s" % (source + ":f", " + h()" if f_uses_h else "", call))
     lines.append("def g():")
     lines.append("    return %r" % (source + ":g"))
     source_uses_f = rng.random() < 0.5
-    if idx is not None and uses_import in ("try", "if"):
-        # first round: without the import cycle, so that the conditional import itself is what is tested
+    if idx is not None and uses_import in ("try", "if", "class_kw", "class_base", "default", "decorator"):
+        # first round: without the import cycle, so that carrying the import itself is what is tested
         source_uses_f = (idx // len(IMPORT_USES)) % 2 == 1
     if source_uses_f:
         lines.append("show(f)")
@@ -133,6 +145,19 @@ def gen_project(rng, idx=None):
         rel = "/".join(tuple(folder) + ("k%d.py" % i,))
         files[rel] = text
         clients[rel] = style
+    # destinations that re-export a name they do not use themselves (from x import g as rx) and a module that imports
+    # the re-export from them: whatever is moved into such a destination, the re-export must survive
+    reexp = [o for o in others if o != lib][:]
+    rng.shuffle(reexp)
+    for j, dest in enumerate(reexp[:2]):
+        srcs = [o for o in mods if o not in (dest, source) and o not in reexp[:2]]
+        if not srcs:
+            continue
+        via = L.modname_of_rel(rng.choice(srcs))
+        files[dest] = "from %s import g as rx\n" % via + files[dest]
+        rel = "r%d.py" % j
+        files[rel] = "from %s import rx\nshow(rx)\n" % L.modname_of_rel(dest)
+        clients[rel] = "imports_reexport_of_destination"
     if homonym is not None and homonym[0] in others:
         top, inner = homonym
         pkg = inner.split("/")[0]
@@ -166,7 +191,13 @@ def gen_project(rng, idx=None):
         # moving f into the module its source keeps importing conditionally would create an import cycle through
         # the back-import of h: not a destination
         others = [o for o in others if o != lib]
+    if idx is not None and idx < len(IMPORT_USES) and lib in others and len(others) > 1 \
+            and uses_import in ("default", "decorator", "class_kw", "class_base"):
+        # first round: not into the module the def line depends on (that is the known paste-above-definitions
+        # finding), so that carrying the import itself is what is tested
+        others = [o for o in others if o != lib]
     return {"files": files, "source": source, "dests": others, "clients": clients,
+            "reexporting": reexp[:2],
             "features": {"uses_import": uses_import, "lib": lib,
                          # the destination back-imports from the source (h, or a conditionally imported name)
                          # while the source imports the destination
@@ -174,8 +205,9 @@ def gen_project(rng, idx=None):
             "forced": [homonym[0]] if homonym is not None and homonym[0] in others else []}
 
 
-def run_one(files, source, dest):
-    """-> (raised, before oracle, after oracle, after texts)"""
+def run_one(files, source, dest, preview=None):
+    """-> (raised, before oracle, after oracle, after texts).  With `preview`, the same Move object first computes the
+    changes for that other destination (a preview that is discarded) and then those for `dest`, which are performed."""
     root = tempfile.mkdtemp(prefix="ropeverif-")
     try:
         for rel, text in files.items():
@@ -190,8 +222,12 @@ def run_one(files, source, dest):
         raised = None
         try:
             res = project.get_resource(source)
-            offset = res.read().index("def f(") + 4
-            changes = move.create_move(project, res, offset).get_changes(project.get_resource(dest))
+            text = res.read()
+            offset = text.index("def f(") + 4 if "def f(" in text else text.index("class f(") + 6
+            mover = move.create_move(project, res, offset)
+            if preview is not None:
+                mover.get_changes(project.get_resource(preview))      # looked at, then discarded
+            changes = mover.get_changes(project.get_resource(dest))
             project.do(changes)
         except Exception as e:
             raised = type(e).__name__ + ": " + str(e)[:200]
@@ -268,7 +304,7 @@ def classify(obj, rel):
     if rel == dest:
         # the moved def is pasted above the destination's own definitions: a name of the destination module that
         # the def LINE needs (default value, decorator) does not exist yet
-        if feats.get("uses_import") in ("default", "decorator") and feats.get("lib") == dest:
+        if feats.get("uses_import") in ("default", "decorator", "class_kw", "class_base") and feats.get("lib") == dest:
             return "dest:def-line-uses-a-global-of-the-destination"
         return "dest"
     # the new `import <dest>` binds the first segment of the destination's name; the client already binds it
@@ -289,7 +325,7 @@ def signature(obj):
 
 
 def replay(ctx, obj):
-    raised, before, after, _ = run_one(obj["files"], obj["source"], obj["dest"])
+    raised, before, after, _ = run_one(obj["files"], obj["source"], obj["dest"], obj.get("preview"))
     bad = verdicts(obj["files"], obj["source"], obj["dest"], raised, before, after)
     return obj["module"] in bad if obj.get("module") else bool(bad)
 
@@ -303,7 +339,7 @@ def minimal(proj, dest, rel):
 
 
 def run(ctx):
-    n = ctx.scale(6, 40)
+    n = ctx.scale(8, 40)
     for pi in range(n):
         proj = gen_project(ctx.rng, pi)
         dests = proj["dests"]
@@ -319,16 +355,28 @@ def run(ctx):
         for d in proj.get("forced", []):
             if d not in dests:
                 dests = dests + [d]
-        for dest in dests:
-            raised, before, after, texts = run_one(proj["files"], proj["source"], dest)
+        # destinations that re-export something are always among the tried ones
+        for d in proj.get("reexporting", [])[:1]:
+            if d in proj["dests"] and d not in dests:
+                dests = dests + [d]
+        for di, dest in enumerate(dests):
+            # every other move is a two-step session on one Move object: preview another destination, discard it,
+            # then compute and perform the real one
+            preview = None
+            if di % 2 == 1:
+                alts = [d for d in proj["dests"] if d != dest]
+                preview = ctx.rng.choice(alts) if alts else None
+            raised, before, after, texts = run_one(proj["files"], proj["source"], dest, preview)
             ctx.traces += 1
-            ctx.count("moveglobal:" + ("raised" if raised else "done"))
+            ctx.count("moveglobal:" + ("raised" if raised else "done") + (":after-preview" if preview else ""))
             bad = verdicts(proj["files"], proj["source"], dest, raised, before, after)
             for rel, style in proj["clients"].items():
                 ctx.case(("mg", proj["files"][rel], proj["source"], dest, rel), nontrivial=True)
                 ctx.count("moveglobal:style:" + style)
             for rel, desc in sorted(bad.items()):
                 obj = minimal(proj, dest, rel)
+                if preview:
+                    obj["preview"] = preview
                 obj["failure"] = failure_class(desc)
                 obj["circular"] = "circular import" in desc or "partially initialized" in desc
                 ctx.count("moveglobal_oracle_failures:" + classify(obj, rel))
